@@ -88,6 +88,14 @@ def cases(tier):
                     continue
                 for src in ("stored", "linked", "alias"):
                     yield {"k": "range", "ticks": [str(t) for t in ticks], "src": src, "wide": True}
+    # sampling intervals far below 1e-8 (dyadic, so the reference stays exact)
+    for iv, off in ((Fr(1, 2 ** 30), None), (Fr(1, 2 ** 30), Fr(3)), (Fr(1, 2 ** 40), Fr(-1, 4))):
+        yield {"k": "sampled", "iv": str(iv), "off": None if off is None else str(off), "kr": krange}
+    # long tick vectors (beyond 255 / 1024 entries), every value repeated twice resp. strictly ascending
+    for n in (300, 1025) + ((3000, 5000) if tier == "thorough" else ()):
+        for rep in (1, 2):
+            for src in ("stored", "linked"):
+                yield {"k": "range", "ticks": ["%d/%d" % (i // rep, 2) for i in range(n)], "src": src, "long": True}
     # ticks of large magnitude that lie closer together than 1e-5 of their value (dyadic: 1000 + k/256)
     for sub in ([0, 1, 2, 3], [0, 2, 3], [1, 1, 3], [0, 3]):
         for src in ("stored", "linked", "alias"):
@@ -425,6 +433,10 @@ def run_range(case, r):
             return ref_finite(ticks, p, mode)
 
         POS = RANGE_POS_T if case.get("wide") else RANGE_POS
+        if case.get("long"):
+            n_ = len(ticks)
+            marks = sorted({0, 1, 2, n_ // 3, n_ // 2, 254, 255, 256, 1023, 1024, 1025, n_ - 3, n_ - 2, n_ - 1} & set(range(n_)))
+            POS = sorted({ticks[i] for i in marks} | {ticks[i] + Fr(1, 8) for i in marks} | {ticks[0] - 1, ticks[-1] + 1})
         if case.get("close"):
             POS = [Fr(999)] + [Fr(1000) + Fr(k, 512) for k in range(-1, 8)] + [Fr(1001)]
         for p in POS:
@@ -432,14 +444,15 @@ def run_range(case, r):
             for mname, mode in MODES:
                 r.nontrivial += 1
                 check_index(r, "range", dim, float(p), mname, mode, idx(p, mname), cls, ctx, **kw)
-        for a, b in itertools.product(POS, repeat=2):
+        PAIRS = itertools.product(POS, repeat=2) if not case.get("long") else [(a, b) for a in POS[::3] for b in POS[1::3]]
+        for a, b in PAIRS:
             for sname, smode in SMODES:
                 exp = ref_range(idx, a, b, sname) if a <= b else None
                 cls = "%s..%s|%s%s" % (pcls_finite(ticks, a), pcls_finite(ticks, b), rep, "|reversed" if a > b else "")
                 r.nontrivial += 1
                 check_range(r, "range", dim, a, b, sname, smode, exp, cls, ctx)
         if strict:
-            for i in range(n):
+            for i in (range(n) if not case.get("long") else marks):
                 r.evals += 1
                 t = dim.tick_at(i)
                 if Fr(float(t)) != ticks[i]:
@@ -449,8 +462,8 @@ def run_range(case, r):
                 for mname, mode in MODES:
                     exp = i if mname != "less" else (i - 1 if i > 0 else None)
                     check_index(r, "range", dim, float(t), mname, mode, exp, "roundtrip", ctx, **kw)
-            for start in range(0, n + 1):
-                for count in range(0, n - start + 1):
+            for start in (range(0, n + 1) if not case.get("long") else [x for x in (0, 1, 255, 1023, n - 2) if 0 <= x <= n]):
+                for count in (range(0, n - start + 1) if not case.get("long") else sorted({c_ for c_ in (0, 1, 2, 300, n - start) if 0 <= c_ <= n - start})):
                     r.evals += 1
                     ax = dim.axis(count, start)
                     if [Fr(float(x)) for x in ax] != ticks[start:start + count]:
